@@ -74,6 +74,10 @@ def variants(prog, extra):
       v = copy.deepcopy(prog)
       v['plugs'][k][field] = val
       out.append(('%s-%s-%d' % (field, val, k), v))
+  if prog['plugs']:
+    v = copy.deepcopy(prog)
+    v['plugs'][extra[0] % len(prog['plugs'])]['ctor'] = 'raise-exit'     # SystemExit: a BaseException, not an Exception
+    out.append(('ctor-raise-exit-%d' % (extra[0] % len(prog['plugs'])), v))
   if len(prog['plugs']) >= 2:
     k1, k2, f1, f2 = extra
     k1 %= len(prog['plugs'])
